@@ -142,7 +142,15 @@ def h_filter(ctx):
     e, n, data, weights = _dataset(ctx, "", shape, ncomp, cfg.get("weighted", False))
     x = ctx.reals("x", shape)
     g = UFGridder(ident=7, ncomp=ncomp)
-    darg, warg = _args(data, weights, ncomp)
+    if cfg.get("int_data"):
+        # integer-valued data stored with an integer dtype: residuals are still data minus the (real-valued) prediction
+        ivals = [ctx.ints("i%d" % c, shape, -20, 20) for c in range(ncomp)]
+        data = [np.array(v, dtype=object) if ctx.sym else np.asarray(v, dtype=float) for v in ivals]
+        typed = [npx.SymArray(v, "int64") if ctx.sym else np.asarray(v, dtype=np.int64) for v in ivals]
+        darg = tuple(typed) if ncomp > 1 else typed[0]
+        warg = None if weights is None else (tuple(weights) if ncomp > 1 else weights[0])
+    else:
+        darg, warg = _args(data, weights, ncomp)
     coords = (e, n, x)
     out = g.filter(coords, darg, warg)
     ctx.claim("filter returns (coordinates, residuals, weights)", len(out) == 3)
@@ -400,7 +408,7 @@ def _cfg_mixed(tier, seed):
 
 HARNESSES = [
     Harness("chain_of_gridders", h_chain_uf, _cfg_chain, bounds="1-4 steps, 1-3 data components, weights or none, inputs of shape (2,2)/(3,)/(1,3), two successive fits on different symbolic datasets, symbolic query points"),
-    Harness("filter", h_filter, lambda tier, seed: [{"shape": (2, 2), "ncomp": 1}, {"shape": (3,), "ncomp": 2, "weighted": True}], bounds="symbolic coordinates (+ ignored extra), data with 1-2 components, weights or none"),
+    Harness("filter", h_filter, lambda tier, seed: [{"shape": (2, 2), "ncomp": 1}, {"shape": (3,), "ncomp": 2, "weighted": True}, {"shape": (2,), "ncomp": 2, "int_data": True}], bounds="symbolic coordinates (+ ignored extra), data with 1-2 components (real, or integers carried by an int64 dtype), weights or none"),
     Harness("vector", h_vector, lambda tier, seed: [{"shape": (3,), "ncomp": 2, "weighted": True}, {"shape": (2, 2), "ncomp": 3}], bounds="2-3 components with distinct symbolic data and weights; shapes (3,), (2,2)"),
     Harness("chain_mixed", h_chain_mixed, _cfg_mixed, bounds="Trend(1) / BlockReduce (first or mid-chain) / BlockMean / nested Chain (1-2 components, after an earlier fit on other data) / Vector (distinct weights per component) steps followed by a recording gridder; 3-5 symbolic points", stubs=["sklearn StandardScaler/LinearRegression/Ridge -> normal-equation contract", "block_split -> C08 contract"], extra_globals=_globals, engine={"oneshot": True}),
 ]
